@@ -317,6 +317,53 @@ def check_high_level_blobs(prog, res, ne):
     res.coverage["blob_functions_not_decided"] = und
 
 
+FAMILY_SUFFIX = re.compile(r"(Start|Restart|Step\w*|Absorb\w*|Squeeze\w*|Encr\w*|Decr\w*|Ratchet|Commit|Transition)$")
+
+
+def check_state_within_keep(prog, res, ne, sizes):
+    """SD.e: every function over a state structure uses no more of `state` than the family's _keep() reports: the
+    structure laid over it (sizeof), array members and the flexible tail handed to callees as scratch stack (their
+    demand) or as a nested state (its use), measured from the state's base like a `stack` parameter."""
+    from . import sb
+    from collections import Counter
+    nfam, und = 0, {}
+    for (rel, sn), fs in sorted(sb.families(prog).items()):
+        names = [f.name for f, pi in fs if not f.static]
+        if not names:
+            continue
+        pre = Counter(FAMILY_SUFFIX.sub("", x) for x in names).most_common(1)[0][0]
+        keep = prog.funcs.get(pre + "_keep")
+        if keep is None or keep.body is None:
+            continue
+        if keep.params:
+            und[pre] = "%s_keep depends on %s (not on the grid of this rule)" % (pre, ", ".join(p["n"] for p in keep.params))
+            continue
+        try:
+            kv = sizes.call(keep.name, [], keep.unit)
+        except Undecided as u:
+            und[pre] = "keep not evaluable: %s" % u
+            continue
+        nfam += 1
+        for f, pi in fs:
+            scal = {p["n"]: HL_SCALARS[p["n"]][0] for p in f.params if not p.get("p") and p["n"] in HL_SCALARS}
+            try:
+                need = ne.need(f, scal, {}, "state")
+            except Undecided as u:
+                res.undecided("SD.e-state-within-keep", function=f.name, file=rel, line=f.line,
+                              construct="%s vs %s_keep" % (f.name, pre), detail=str(u))
+                continue
+            if need > kv:
+                res.violation("SD.e-state-within-keep", function=f.name, file=rel, line=f.line,
+                              construct="%s uses more of the state than %s_keep() reports" % (f.name, pre),
+                              detail="the body lays out / passes down %d octets from the state's base but %s_keep() returns %d "
+                                     "(short by %d): a state of exactly the reported size is overrun" % (need, pre, kv, need - kv))
+            else:
+                res.proved("SD.e-state-within-keep", function=f.name, file=rel, line=f.line,
+                           construct="%s <= %s_keep() = %d" % (f.name, pre, kv), detail="uses %d octet(s) of the state" % need)
+    res.floor("state families with a parameterless _keep", nfam, 20)
+    res.coverage["state_families_not_decided"] = und
+
+
 def check_blob_sizes(prog, res, ne):
     """SD.c: the block blob.c obtains from the allocator covers the size header plus the requested payload"""
     for fname, alloc, size_idx in (("blobCreate", "memAlloc", 0), ("blobResize", "memRealloc", 1)):
@@ -393,6 +440,7 @@ def run(tier, seed=0):
     check_creators(prog, res, tier, ne, sizes)
     check_blob_sizes(prog, res, ne)
     check_high_level_blobs(prog, res, ne)
+    check_state_within_keep(prog, res, ne, sizes)
     from . import c15
     c15.check_who_may_free(prog, res)
     for i in res.instances:
